@@ -28,6 +28,8 @@ prop("C01",
            "large (30-60 statements) instance; distinct by structure hash of the conditions"),
      quick=dict(cases=4000, args={"large": 20}),
      thorough=dict(cases=30000, args={"nmax": 9, "large": 200}),
+     exhaustive_key="exhaustive_tiny_adfs",
+     exhaustive_scope="all 4 + 256 ADFs over 1 and 2 statements (every pair of Boolean functions), written in three styles",
      )
 
 prop("C02",
@@ -41,6 +43,8 @@ prop("C02",
            "distinct by structure hash"),
      quick=dict(cases=3000, args={}),
      thorough=dict(cases=15000, args={"nmax": 8}),
+     exhaustive_key="exhaustive_tiny_adfs",
+     exhaustive_scope="all 4 + 256 ADFs over 1 and 2 statements (every pair of Boolean functions), written in three styles",
      )
 
 prop("C03",
@@ -54,6 +58,8 @@ prop("C03",
            "stable models; distinct by structure hash"),
      quick=dict(cases=2500, args={}),
      thorough=dict(cases=12000, args={"nmax": 8}),
+     exhaustive_key="exhaustive_tiny_adfs",
+     exhaustive_scope="all 4 + 256 ADFs over 1 and 2 statements (every pair of Boolean functions), written in three styles",
      )
 
 prop("C04",
@@ -67,6 +73,8 @@ prop("C04",
            "branching decisions and skipped >=1 inconsistent cube that was not the last cube; distinct by structure hash"),
      quick=dict(cases=5000, args={}),
      thorough=dict(cases=40000, args={"nmax": 8}),
+     exhaustive_key="exhaustive_tiny_adfs",
+     exhaustive_scope="all 4 + 256 ADFs over 1 and 2 statements (every pair of Boolean functions), written in three styles",
      )
 
 prop("C05",
@@ -83,6 +91,8 @@ prop("C05",
            "search on the ADF backtracked, learned >=1 nogood and ran >=3 loop iterations; distinct by structure hash"),
      quick=dict(cases=800, args={}),
      thorough=dict(cases=5000, args={"nmax": 7}),
+     exhaustive_key="exhaustive_tiny_adfs",
+     exhaustive_scope="all 4 + 256 ADFs over 1 and 2 statements (every pair of Boolean functions), written in three styles",
      )
 
 prop("C06",
@@ -143,6 +153,8 @@ prop("C18",
            "distinct by hash of the add sequence"),
      quick=dict(cases=6000, args={}),
      thorough=dict(cases=40000, args={}),
+     exhaustive_key="exhaustive_sequences",
+     exhaustive_scope="all add sequences up to length 3 over all 8 non-empty nogoods of 2 variables (and up to length 2 over all 26 of 3 variables), 3 modes, all interpretations",
      )
 
 prop("C19",
